@@ -12,6 +12,11 @@ import Gonuts.Model.Spend
   4. the pinned bodies (go/printer text, comments stripped) of every function the model mirrors line by line:
      any edit of one of them breaks this file until the model has been re-read against the new text.
 -/
+/-
+  (round 6) The bodies of nut11.HasValidSignatures, ProofsSigAll, ParseP2PKTags, PublicKeys, IsSigAll, DuplicateSignatures,
+  VerifyP2PKLockedProof and nut14.VerifyHTLCProof are no longer frozen as text here: they are TRANSLATED on every run and
+  proved equal to the model in Tie/Code.lean, which rejects a semantic change and accepts a harmless rewrite.
+-/
 namespace Gonuts.Tie.Spend
 open Gonuts Gonuts.Model.Spend
 
@@ -102,42 +107,7 @@ theorem p2pkOutputsHash : Gen.args_p2pkOutputsHash = [["msgToSign"]] ∧ Gen.arg
 
 /-! ## 4. pinned bodies -/
 
-theorem body_HasValidSignatures : Gen.body_nut11_HasValidSignatures =
-    [
-      "{",
-      "pubkeysCopy := make([]*btcec.PublicKey, len(pubkeys))",
-      "copy(pubkeysCopy, pubkeys)",
-      "validSignatures := 0",
-      "for _, signature := range signatures {",
-      "sig, err := ParseSignature(signature)",
-      "if err != nil {",
-      "continue",
-      "}",
-      "for i, pubkey := range pubkeysCopy {",
-      "if sig.Verify(hash, pubkey) {",
-      "validSignatures++",
-      "pubkeysCopy = slices.Delete(pubkeysCopy, i, i+1)",
-      "break",
-      "}",
-      "}",
-      "}",
-      "return validSignatures >= Nsigs",
-      "}"] := rfl
 
-theorem body_ProofsSigAll : Gen.body_nut11_ProofsSigAll =
-    [
-      "{",
-      "for _, proof := range proofs {",
-      "secret, err := nut10.DeserializeSecret(proof.Secret)",
-      "if err != nil {",
-      "continue",
-      "}",
-      "if IsSigAll(secret) {",
-      "return true",
-      "}",
-      "}",
-      "return false",
-      "}"] := rfl
 
 theorem body_AddWitnessHTLCToOutputs : Gen.body_nut14_AddWitnessHTLCToOutputs =
     [
@@ -166,168 +136,10 @@ theorem body_AddWitnessHTLCToOutputs : Gen.body_nut14_AddWitnessHTLCToOutputs =
       "return outputs, nil",
       "}"] := rfl
 
-theorem body_ParseP2PKTags : Gen.body_nut11_ParseP2PKTags =
-    [
-      "{",
-      "if len(tags) > 5 {",
-      "return nil, TooManyTagsErr",
-      "}",
-      "p2pkTags := P2PKTags{}",
-      "for _, tag := range tags {",
-      "if len(tag) < 2 {",
-      "return nil, InvalidTagErr",
-      "}",
-      "tagType := tag[0]",
-      "switch tagType {",
-      "case SIGFLAG:",
-      "sigflagType := tag[1]",
-      "if sigflagType == SIGINPUTS || sigflagType == SIGALL {",
-      "p2pkTags.Sigflag = sigflagType",
-      "} else {",
-      "errmsg := fmt.Sprintf(\"invalig sigflag: %v\", sigflagType)",
-      "return nil, cashu.BuildCashuError(errmsg, NUT11ErrCode)",
-      "}",
-      "case NSIGS:",
-      "nstr := tag[1]",
-      "nsig, err := strconv.ParseInt(nstr, 10, 8)",
-      "if err != nil {",
-      "errmsg := fmt.Sprintf(\"invalig n_sigs value: %v\", err)",
-      "return nil, cashu.BuildCashuError(errmsg, NUT11ErrCode)",
-      "}",
-      "if nsig < 0 {",
-      "return nil, NSigsMustBePositiveErr",
-      "}",
-      "p2pkTags.NSigs = int(nsig)",
-      "case PUBKEYS:",
-      "pubkeys := make([]*btcec.PublicKey, len(tag)-1)",
-      "j := 0",
-      "for i := 1; i < len(tag); i++ {",
-      "pubkey, err := ParsePublicKey(tag[i])",
-      "if err != nil {",
-      "return nil, err",
-      "}",
-      "pubkeys[j] = pubkey",
-      "j++",
-      "}",
-      "p2pkTags.Pubkeys = pubkeys",
-      "case LOCKTIME:",
-      "locktimestr := tag[1]",
-      "locktime, err := strconv.ParseInt(locktimestr, 10, 64)",
-      "if err != nil {",
-      "errmsg := fmt.Sprintf(\"invalid locktime: %v\", err)",
-      "return nil, cashu.BuildCashuError(errmsg, NUT11ErrCode)",
-      "}",
-      "p2pkTags.Locktime = locktime",
-      "case REFUND:",
-      "refundKeys := make([]*btcec.PublicKey, len(tag)-1)",
-      "j := 0",
-      "for i := 1; i < len(tag); i++ {",
-      "pubkey, err := ParsePublicKey(tag[i])",
-      "if err != nil {",
-      "return nil, err",
-      "}",
-      "refundKeys[j] = pubkey",
-      "j++",
-      "}",
-      "p2pkTags.Refund = refundKeys",
-      "}",
-      "}",
-      "return &p2pkTags, nil",
-      "}"] := rfl
 
-theorem body_PublicKeys : Gen.body_nut11_PublicKeys =
-    [
-      "{",
-      "p2pkTags, err := ParseP2PKTags(secret.Data.Tags)",
-      "if err != nil {",
-      "return nil, err",
-      "}",
-      "pubkeys := p2pkTags.Pubkeys",
-      "if secret.Kind == nut10.P2PK {",
-      "pubkey, err := ParsePublicKey(secret.Data.Data)",
-      "if err != nil {",
-      "return nil, err",
-      "}",
-      "pubkeys = append(pubkeys, pubkey)",
-      "}",
-      "return pubkeys, nil",
-      "}"] := rfl
 
-theorem body_IsSigAll : Gen.body_nut11_IsSigAll =
-    [
-      "{",
-      "for _, tag := range secret.Data.Tags {",
-      "if len(tag) == 2 {",
-      "if tag[0] == SIGFLAG && tag[1] == SIGALL {",
-      "return true",
-      "}",
-      "}",
-      "}",
-      "return false",
-      "}"] := rfl
 
-theorem body_DuplicateSignatures : Gen.body_nut11_DuplicateSignatures =
-    [
-      "{",
-      "sigs := make(map[string]bool)",
-      "for _, sig := range signatures {",
-      "if sigs[sig] {",
-      "return true",
-      "} else {",
-      "sigs[sig] = true",
-      "}",
-      "}",
-      "return false",
-      "}"] := rfl
 
-theorem body_VerifyP2PKLockedProof : Gen.body_nut11_VerifyP2PKLockedProof =
-    [
-      "{",
-      "var p2pkWitness P2PKWitness",
-      "json.Unmarshal([]byte(proof.Witness), &p2pkWitness)",
-      "p2pkTags, err := ParseP2PKTags(proofSecret.Data.Tags)",
-      "if err != nil {",
-      "return err",
-      "}",
-      "signaturesRequired := 1",
-      "if p2pkTags.Locktime > 0 && time.Now().Local().Unix() > p2pkTags.Locktime {",
-      "if len(p2pkTags.Refund) == 0 {",
-      "return nil",
-      "} else {",
-      "hash := sha256.Sum256([]byte(proof.Secret))",
-      "if len(p2pkWitness.Signatures) < 1 {",
-      "return InvalidWitness",
-      "}",
-      "if !HasValidSignatures(hash[:], p2pkWitness.Signatures, signaturesRequired, p2pkTags.Refund) {",
-      "return NotEnoughSignaturesErr",
-      "}",
-      "}",
-      "} else {",
-      "pubkey, err := ParsePublicKey(proofSecret.Data.Data)",
-      "if err != nil {",
-      "return err",
-      "}",
-      "keys := []*btcec.PublicKey{pubkey}",
-      "hash := sha256.Sum256([]byte(proof.Secret))",
-      "if p2pkTags.NSigs > 0 {",
-      "signaturesRequired = p2pkTags.NSigs",
-      "if len(p2pkTags.Pubkeys) == 0 {",
-      "return EmptyPubkeysErr",
-      "}",
-      "keys = append(keys, p2pkTags.Pubkeys...)",
-      "}",
-      "if len(p2pkWitness.Signatures) < 1 {",
-      "return InvalidWitness",
-      "}",
-      "if DuplicateSignatures(p2pkWitness.Signatures) {",
-      "return DuplicateSignaturesErr",
-      "}",
-      "if !HasValidSignatures(hash[:], p2pkWitness.Signatures, signaturesRequired, keys) {",
-      "return NotEnoughSignaturesErr",
-      "}",
-      "}",
-      "return nil",
-      "}"] := rfl
 
 theorem body_AddSignatureToInputs : Gen.body_nut11_AddSignatureToInputs =
     [
@@ -379,55 +191,6 @@ theorem body_AddSignatureToOutputs : Gen.body_nut11_AddSignatureToOutputs =
       "return outputs, nil",
       "}"] := rfl
 
-theorem body_VerifyHTLCProof : Gen.body_nut14_VerifyHTLCProof =
-    [
-      "{",
-      "var htlcWitness HTLCWitness",
-      "json.Unmarshal([]byte(proof.Witness), &htlcWitness)",
-      "p2pkTags, err := nut11.ParseP2PKTags(proofSecret.Data.Tags)",
-      "if err != nil {",
-      "return err",
-      "}",
-      "if p2pkTags.Locktime > 0 && time.Now().Local().Unix() > p2pkTags.Locktime {",
-      "if len(p2pkTags.Refund) == 0 {",
-      "return nil",
-      "} else {",
-      "hash := sha256.Sum256([]byte(proof.Secret))",
-      "if len(htlcWitness.Signatures) < 1 {",
-      "return nut11.InvalidWitness",
-      "}",
-      "if !nut11.HasValidSignatures(hash[:], htlcWitness.Signatures, 1, p2pkTags.Refund) {",
-      "return nut11.NotEnoughSignaturesErr",
-      "}",
-      "}",
-      "return nil",
-      "}",
-      "preimageBytes, err := hex.DecodeString(htlcWitness.Preimage)",
-      "if err != nil {",
-      "return InvalidPreimageErr",
-      "}",
-      "hashBytes := sha256.Sum256(preimageBytes)",
-      "hash := hex.EncodeToString(hashBytes[:])",
-      "if len(proofSecret.Data.Data) != 64 {",
-      "return InvalidHashErr",
-      "}",
-      "if hash != proofSecret.Data.Data {",
-      "return InvalidPreimageErr",
-      "}",
-      "if p2pkTags.NSigs > 0 {",
-      "if len(htlcWitness.Signatures) < 1 {",
-      "return nut11.NoSignaturesErr",
-      "}",
-      "hash := sha256.Sum256([]byte(proof.Secret))",
-      "if nut11.DuplicateSignatures(htlcWitness.Signatures) {",
-      "return nut11.DuplicateSignaturesErr",
-      "}",
-      "if !nut11.HasValidSignatures(hash[:], htlcWitness.Signatures, p2pkTags.NSigs, p2pkTags.Pubkeys) {",
-      "return nut11.NotEnoughSignaturesErr",
-      "}",
-      "}",
-      "return nil",
-      "}"] := rfl
 
 theorem body_AddWitnessHTLC : Gen.body_nut14_AddWitnessHTLC =
     [
